@@ -11,6 +11,7 @@ package c10
 import (
 	"fmt"
 	"net"
+	"os"
 	"strconv"
 	"strings"
 	"time"
@@ -218,6 +219,11 @@ func (r *runner) apply(f []string) string {
 		})
 		if !ok {
 			core.Count("settle_timeout")
+			if os.Getenv("C10_DEBUG") != "" {
+				c, _, _ := s.cstat.get()
+				sv, _, _ := s.sstat.get()
+				fmt.Fprintf(os.Stderr, "settle timeout: want %d %d have %d %d\n", wc, ws, c, sv)
+			}
 		}
 		time.Sleep(2 * time.Millisecond) // let the readers get back into their select
 		return "ok"
